@@ -270,3 +270,139 @@ def best_eval(**inp):
     exp = _select_spec(Fl, Ml, tol, pen)
     return {"reproduced": got != exp, "observed": {"filter": list(zip(Fl, Ml)), "tol": tol, "penalty": pen, "returned_index": got,
                                                    "prescribed_index": exp}}
+
+
+# ---- C19: invalid / unknown constants are reported for every kind of problem ---------------------------------------------
+def minimize_validation_order(**inp):
+    """Solve a problem of the kind the counter-model describes (inconsistent bounds / every variable fixed / ordinary) with an
+    out-of-domain constant and with an unknown one: the first must raise ValueError, the second must warn."""
+    import warnings
+    from cobyqa import minimize
+    feas = bool(inp.get("bounds_feasible", True))
+    n = int(inp.get("n", 1))
+    if not feas:
+        bounds, kind = [(1.0, 0.0), (0.0, 1.0)], "inconsistent bounds"
+    elif n == 0:
+        bounds, kind = [(0.5, 0.5), (0.25, 0.25)], "every variable fixed"
+    else:
+        bounds, kind = [(-1.0, 1.0), (-1.0, 1.0)], "ordinary problem"
+    fun = lambda x: float((x[0] - 0.3) ** 2 + x[1] ** 2)
+    obs = {"problem": kind}
+    try:
+        r = minimize(fun, [0.5, 0.25], bounds=bounds, options={"maxfev": 20}, low_ratio=2.0)
+        obs["invalid_constant"] = f"accepted: minimize returned status {r.status}"
+    except ValueError as e:
+        obs["invalid_constant"] = "ValueError"
+    with warnings.catch_warnings(record=True) as w:
+        warnings.simplefilter("always")
+        minimize(fun, [0.5, 0.25], bounds=bounds, options={"maxfev": 20}, not_a_constant=1.0)
+    obs["unknown_constant"] = "warned" if any(issubclass(x.category, RuntimeWarning) for x in w) else "no warning"
+    bad = obs["invalid_constant"] != "ValueError" or obs["unknown_constant"] != "warned"
+    return {"reproduced": bad, "observed": obs, "required": "low_ratio=2.0 raises ValueError and an unknown constant gives a RuntimeWarning"}
+
+
+# ---- C17: NonlinearConstraints.__call__ against the row-by-row statement ------------------------------------------------
+def nonlinear_call(**inp):
+    """Constraint objects with the limits of the counter-model and constant value functions; the real NonlinearConstraints is
+    called twice (two points) and its rows are compared with the statement of C17 computed independently here."""
+    import re
+    from scipy.optimize import NonlinearConstraint
+    objs = {}
+    for k, v in inp.items():
+        mt = re.match(r"(lb|ub|val)(\d+)(\W.*)?$", k)
+        if mt and isinstance(v, list):
+            objs.setdefault(int(mt.group(2)), {}).setdefault(mt.group(1), []).append(np.array([F(e) if e is not None else 0.0 for e in v], dtype=float))
+    cons, data = [], []
+    for k in sorted(objs):
+        o = objs[k]
+        if "lb" not in o or "ub" not in o:
+            continue
+        lb, ub = o["lb"][0], o["ub"][0]
+        m = len(lb)
+        if m == 0 or len(ub) != m:
+            continue
+        vals = [v for v in o.get("val", []) if len(v) == m] or [np.zeros(m)]
+        calls = []
+
+        def fun(x, vals=vals, calls=calls):
+            calls.append(1)
+            return vals[min(len(calls), len(vals)) - 1].copy()
+        cons.append(NonlinearConstraint(fun, lb, ub))
+        data.append((lb, ub, vals, calls))
+    if not cons:
+        return {"reproduced": False, "reason": "the counter-model has no non-empty constraint object"}
+    r = _nonlinear_call_run(cons, data, None)
+    if r["reproduced"]:
+        return r
+    # second attempt: the tolerance of utils.get_arrays_tol is a callee result that the contract leaves free (any value >= 0); replay
+    # with the counter-model's value for it, and say so
+    tols = [F(v) for k, v in sorted(inp.items()) if re.match(r"tol(\W.*)?$", k) and not isinstance(v, (list, dict)) and v is not None]
+    if tols:
+        for d in data:
+            del d[3][:]
+        r2 = _nonlinear_call_run(cons, data, tols)
+        if r2["reproduced"]:
+            r2["observed"]["get_arrays_tol_replaced_by_model_values"] = tols
+            return r2
+    return r
+
+
+def _nonlinear_call_run(cons, data, tols):
+    from cobyqa.problem import NonlinearConstraints
+    import cobyqa.problem as P
+    from cobyqa.utils import get_arrays_tol as real_tol
+    used = []
+
+    def tol_fn(*arrays):
+        t = tols[min(len(used), len(tols) - 1)] if tols else real_tol(*arrays)
+        used.append(t)
+        return t
+    saved = P.get_arrays_tol
+    P.get_arrays_tol = tol_fn
+    try:
+        return _nonlinear_call_compare(NonlinearConstraints(cons, False, False), data, used)
+    finally:
+        P.get_arrays_tol = saved
+
+
+def _nonlinear_call_compare(nc, data, used):
+    obs = {"objects": [{"lb": d[0].tolist(), "ub": d[1].tolist()} for d in data]}
+    try:
+        with np.errstate(all="ignore"):
+            for rnd, x in enumerate((np.array([0.5, 0.25]), np.array([0.75, -1.0]))):
+                cub, ceq = nc(x)
+                exp_ub, exp_eq = [], []
+                for k, (lb, ub, vals, calls) in enumerate(data):
+                    v = vals[min(len(calls), len(vals)) - 1]
+                    eq = np.abs(ub - lb) <= used[k]
+                    lo = ~eq & (lb > -np.inf)
+                    hi = ~eq & (ub < np.inf)
+                    exp_ub += [lb[lo] - v[lo], v[hi] - ub[hi]]
+                    exp_eq += [v[eq] - 0.5 * (lb[eq] + ub[eq])]
+                exp_ub, exp_eq = np.concatenate(exp_ub), np.concatenate(exp_eq)
+                if not (np.array_equal(cub, exp_ub, equal_nan=True) and np.array_equal(ceq, exp_eq, equal_nan=True)):
+                    obs.update(call=rnd + 1, c_ub=np.asarray(cub).tolist(), expected_c_ub=exp_ub.tolist(), c_eq=np.asarray(ceq).tolist(),
+                               expected_c_eq=exp_eq.tolist())
+                    return {"reproduced": True, "observed": obs, "required": "rows: lb - value (finite lb), value - ub (finite ub), "
+                            "value - (lb+ub)/2 (lb == ub), per object in order"}
+    except Exception as e:  # an exception escaping NonlinearConstraints.__call__ for valid limits is itself a violation (C08)
+        obs["exception"] = repr(e)
+        return {"reproduced": True, "observed": obs, "required": "no exception"}
+    return {"reproduced": False, "observed": obs}
+
+
+# ---- C15 / C16 / C01: one concrete call of a subproblem solver that failed a run-time clause in a bounded unit -------------------
+def subsolver_case(solver=None, clause=None, case=None, **_):
+    from contracts.subsolver_clauses import CLAUSES
+    d = {}
+    for k, v in case.items():
+        if isinstance(v, list):
+            a = np.array(v, dtype=float)
+            if k in ("aub", "aeq", "H", "xpt") and a.ndim == 1:
+                a = a.reshape(0, int(case["n"])) if k in ("aub", "aeq") else a.reshape(int(case["n"]), -1)
+            d[k] = a
+        else:
+            d[k] = v
+    with np.errstate(all="ignore"):
+        res = dict(CLAUSES[solver](d))
+    return {"reproduced": res.get(clause) is False, "observed": {"clauses": res}, "required": clause}
